@@ -2,6 +2,7 @@ import Efp.Theory.Checker
 import Efp.Model.Graph
 import Efp.Proofs.ChainAccepted
 import Efp.Proofs.Grouped
+import Efp.Proofs.ChainTerm
 /-!
 # C01 — incremental recomputation equals recomputation from scratch
 
@@ -23,8 +24,10 @@ graph without shared ids whose ancestor links are mirrored and which is acyclic 
 three executable hypotheses that the check run evaluates on each exported real graph — whenever the
 literal port of `attr_updates_chain` returns, its chain is accepted by the checker, hence
 (`edit_with_code_chain_consistent`) an edit followed by the code's own update order re-establishes
-consistency.  What remains unproved is *termination* (that the port returns on such graphs: D13 is
-a hang of exactly this loop when ids are shared) and link edits; both stay with the oracle.
+consistency.  *Termination* is proved as well (`Proofs/ChainTerm.lean`, `code_chain_total`): on such
+graphs the port returns as soon as the fuel exceeds `2·size + 1` (the driver gives `4·size² + 100`),
+because every pass of the `while` loop adds a value or retires a parent — D13 is a hang of exactly
+this loop when ids *are* shared.  Link edits stay with the oracle.
 -/
 namespace Efp.Props.C01
 open Efp.Theory
@@ -118,6 +121,18 @@ theorem edit_with_code_chain_consistent {V : Type} (g : Efp.Graph.G) (fuel u : N
     Consistent S (applyEdit S σ { J := [u], newVals := fun _ => newVal, chain := chain.map Prod.fst }) :=
   edit_preserves_consistency (fun n => (g.node n).anc) calcs S hreads hcalc σ h0 _
     (code_chain_accepted g fuel u rk hwf hbi hrk hu calcs hcalcs chain h)
+
+/-- **total correctness of the code's update order**: on every graph meeting the three executable
+hypotheses the algorithm terminates (fuel `≥ 2·size + 2`) and its chain is accepted by the checker -/
+theorem code_chain_total (g : Efp.Graph.G) (fuel u : Nat) (rk : Array Nat)
+    (hwf : Efp.Graph.wfOk g = true) (hbi : Efp.Graph.ancInChiOk g = true)
+    (hrk : Efp.Graph.rankOk g rk fuel = true) (hu : u < g.size) (hfuel : 2 * g.size + 2 ≤ fuel)
+    (calcs : List Nat) (hcalcs : ∀ n ∈ calcs, n < g.size ∧ n ≠ u) :
+    ∃ chain, Efp.Graph.attrUpdatesChain g fuel u = some chain ∧
+      chainOk (fun n => (g.node n).anc) calcs [u] (chain.map Prod.fst) = true := by
+  obtain ⟨chain, h⟩ := Efp.Graph.attrUpdatesChain_terminates g (Efp.Graph.wfOk_sound g hwf) (fun x => rk[x]!)
+    (Efp.Graph.rankOk_RankOK g rk fuel hrk) (Efp.Graph.ancInChiOk_sound g hbi) fuel u hu hfuel
+  exact ⟨chain, h, code_chain_accepted g fuel u rk hwf hbi hrk hu calcs hcalcs chain h⟩
 
 /-- **grouped updates**: when several inputs `us` change in one `ModelingUpdate`, the code concatenates
 their chains and keeps the last occurrence of each value (`optimize_attr_updates_chain`, ported as
